@@ -1082,16 +1082,19 @@ class ValueMap(Value):
         return str(self) < str(other)
 
     def __repr__(self):
-        return (
-            "<<<"
-            + ", ".join(
-                [
-                    f"{key} => {self.value[key]}"
-                    for key in self.getSortedKeys()
-                ]
-            )
-            + ">>>"
+        inner = ", ".join(
+            [
+                f"{key} => {self.value[key]}"
+                for key in self.getSortedKeys()
+            ]
         )
+        # keep nested set and map delimiters apart: <<<< and >>>> would
+        # be read as different tokens
+        if inner.startswith("<"):
+            inner = " " + inner
+        if inner.endswith(">"):
+            inner = inner + " "
+        return "<<<" + inner + ">>>"
 
     def addMap(self, map_):
         for key, value in map_.items():
@@ -1427,11 +1430,14 @@ class ValueSet(Value):
         return str(self) < str(other)
 
     def __repr__(self):
-        return (
-            "<<"
-            + ", ".join([str(item) for item in self.getSortedItems()])
-            + ">>"
-        )
+        inner = ", ".join([str(item) for item in self.getSortedItems()])
+        # keep nested set and map delimiters apart: <<<< and >>>> would
+        # be read as different tokens
+        if inner.startswith("<"):
+            inner = " " + inner
+        if inner.endswith(">"):
+            inner = inner + " "
+        return "<<" + inner + ">>"
 
     def addItem(self, item):
         self.value.add(item)
